@@ -183,8 +183,8 @@ def splitScheme (url : Str) : Str × Str :=
 def cleanUrl (url : Str) : Str :=
   (url.dropWhile (· ≤ 32)).filter (fun c => c != 9 && c != 10 && c != 13)
 
-/-- `urlsplit` after the scheme has been cut off -/
-def urlsplitRest (ext : Ext) (scheme url : Str) : Except PyExc Split :=
+/-- `urlsplit` after the scheme has been cut off: netloc, path, query -/
+def urlsplitCore (ext : Ext) (url : Str) : Except PyExc (Str × Str × Str) :=
   let nu : Str × Str :=
     match url with
     | 47 :: 47 :: body => spanP (fun c => c != 47 && c != 63 && c != 35) body
@@ -198,7 +198,12 @@ def urlsplitRest (ext : Ext) (scheme url : Str) : Except PyExc Split :=
     let url := (cut1 nu.2 35).1
     let pq := cut1 url 63
     if !netloc.isEmpty && !netloc.all (· < 128) && !ext.netlocOk then .error .ValueError
-    else .ok ⟨scheme, netloc, pq.1, pq.2.2⟩
+    else .ok (netloc, pq.1, pq.2.2)
+
+def urlsplitRest (ext : Ext) (scheme url : Str) : Except PyExc Split :=
+  match urlsplitCore ext url with
+  | .error e => .error e
+  | .ok r => .ok ⟨scheme, r.1, r.2.1, r.2.2⟩
 
 def urlsplit (ext : Ext) (url0 : Str) : Except PyExc Split :=
   let ss := splitScheme (cleanUrl url0)
